@@ -44,6 +44,11 @@ Definition res_eqb_m (m o : option err) : bool :=
 Section Eval.
 Variable faithful : bool.   (* false: lookups as the code is now; true: as in the pinned commit (C02-F1) *)
 Variable fx : fixes.        (* which of fixes/C06-F3/F4/F5.diff the implementation contains *)
+Variable f6 : bool.         (* fixes/C06-F6.diff: the processor refuses rule sets with a duplicate rule id *)
+
+(** what the processor makes of an operation (C06/Processor.v [san1]) *)
+Definition via_processor (o : op) : op :=
+  if f6 && dupid_set (op_set o) then Refused (op_src o) else o.
 
 Definition t_answers (t : tree) (probes : list (nat * str)) : list (option nat) :=
   map (fun pr => uid_of (t_find_rule faithful t (snd pr) (accepts (fst pr)))) probes.
@@ -118,10 +123,11 @@ Fixpoint walk (probes : list (nat * str)) (ops : list op) (obs : list step_obs)
   : bool * bool * option (list Z) * option (list Z) :=
   match ops, obs with
   | [], [] => (true, true, None, None)
-  | o :: ops', ob :: obs' =>
+  | o0 :: ops', ob :: obs' =>
+    let o := via_processor o0 in
     let (tr', tres) := t_step fx tr o in
     let (mr', mres) := step fx mr o in
-    let Sreal' := real_step Sreal o (is_ok (o_res ob)) in
+    let Sreal' := real_step Sreal o0 (is_ok (o_res ob)) in
     let ST' := real_step ST o (is_ok tres) in
     let Sspec' := spec_step Sspec o in
     let (fr, fok) := t_load t_empty_repo Sreal' in
